@@ -213,6 +213,24 @@ class EffectAnalysis:
         return None
 
     # ------------------------------------------------------------------ fixpoint
+    @property
+    def _autoviv(self) -> set:
+        """module-level names whose value is built with collections.defaultdict, directly or through a module-level helper"""
+        if "_autoviv_cache" in self.__dict__:
+            return self.__dict__["_autoviv_cache"]
+        names = set()
+        for m, mi in self.repo.modules.items():
+            dd_funcs = {st.name for st in mi.tree.body if isinstance(st, ast.FunctionDef) and any(isinstance(x, ast.Call) and norm(x.func).split(".")[-1] == "defaultdict" for x in ast.walk(st))}
+            for st in mi.tree.body:
+                if isinstance(st, (ast.Assign, ast.AnnAssign)) and st.value is not None:
+                    uses = any(isinstance(x, ast.Call) and (norm(x.func).split(".")[-1] == "defaultdict" or (isinstance(x.func, ast.Name) and x.func.id in dd_funcs)) for x in ast.walk(st.value))
+                    if uses:
+                        for t in (st.targets if isinstance(st, ast.Assign) else [st.target]):
+                            if isinstance(t, ast.Name):
+                                names.add(t.id)
+        self.__dict__["_autoviv_cache"] = names
+        return names
+
     def run(self) -> EffectResult:
         changed = True
         rounds = 0
@@ -399,6 +417,11 @@ class EffectAnalysis:
                 # subscript/attribute targets are covered by their Store context above
             elif isinstance(n, ast.Call) and isinstance(n.func, ast.Attribute) and n.func.attr in MUTATORS:
                 recv, kind = n.func.value, f".{n.func.attr}()"
+            elif isinstance(n, ast.Subscript) and isinstance(n.ctx, ast.Load) and not isinstance(n.slice, ast.Slice) and self._autoviv:
+                # a lookup `T[k]` on a table backed by collections.defaultdict inserts the missing key: a read that writes
+                o = self.taint(f, n.value, locals_)
+                if o and any(nm in o for nm in self._autoviv):
+                    recv, kind = n.value, "subscript lookup on an auto-vivifying (defaultdict) table: a missing key is inserted"
             elif isinstance(n, ast.Call) and isinstance(n.func, ast.Name) and n.func.id in ("setattr", "delattr") and n.args:
                 a0 = n.args[0]
                 if not (isinstance(a0, ast.Name) and f.params and a0.id == f.params[0] and f.cls):
